@@ -258,4 +258,12 @@ def summarize(cases, results, report):
             if cell.startswith("element/"):
                 _, m, z = cell.split("/")
                 seen[m].add(int(z))
-    return {"elements_seen": {m: {"seen": sorted(seen[m]), "missing": [z for z in tot[m] if z not in seen[m]]} for m in tot}}
+    clean = {}
+    from vlib import verdict
+    for c, r in zip(cases, results):
+        if not r or r.get("violations"):
+            continue
+        for k, v in (r.get("margins") or {}).items():
+            if v is not None and not (v <= clean.get(k, {"worst": -1.0})["worst"]):
+                clean[k] = {"worst": v, "case": verdict.case_id(c)}
+    return {"worst_margin_over_cases_without_violation": clean, "elements_seen": {m: {"seen": sorted(seen[m]), "missing": [z for z in tot[m] if z not in seen[m]]} for m in tot}}
